@@ -135,6 +135,7 @@ macro_rules! impl_clamp_hwb {
                 + crate::num::Clamp
                 + crate::num::PartialCmp
                 + core::ops::Add<Output = T>
+                + core::ops::Sub<Output = T>
                 + core::ops::DivAssign
                 + Clone,
             T::Mask: crate::bool_mask::Select<T>,
@@ -146,9 +147,13 @@ macro_rules! impl_clamp_hwb {
                 let mut blackness = crate::clamp_min(self.blackness.clone(), Self::min_blackness());
 
                 let sum = blackness.clone() + whiteness.clone();
-                let divisor = sum.gt(&T::max_intensity()).select(sum, T::one());
+                let divisor = sum.gt(&T::max_intensity()).select(sum.clone(), T::one());
                 whiteness /= divisor.clone();
                 blackness /= divisor;
+
+                // The blackness fills up the rest when the sum was too large.
+                // Their rounded quotients may otherwise add up to more than 1.
+                blackness = sum.gt(&T::max_intensity()).select(T::one() - whiteness.clone(), blackness);
 
                 Self {hue: self.hue, whiteness, blackness $(, $phantom: self.$phantom)?}
             }
@@ -160,6 +165,7 @@ macro_rules! impl_clamp_hwb {
                 + crate::num::ClampAssign
                 + crate::num::PartialCmp
                 + core::ops::Add<Output = T>
+                + core::ops::Sub<Output = T>
                 + core::ops::DivAssign
                 + Clone,
             T::Mask: crate::bool_mask::Select<T>,
@@ -171,9 +177,15 @@ macro_rules! impl_clamp_hwb {
                 crate::clamp_min_assign(&mut self.blackness, Self::min_blackness());
 
                 let sum = self.blackness.clone() + self.whiteness.clone();
-                let divisor = sum.gt(&T::max_intensity()).select(sum, T::one());
+                let divisor = sum.gt(&T::max_intensity()).select(sum.clone(), T::one());
                 self.whiteness /= divisor.clone();
                 self.blackness /= divisor;
+
+                // The blackness fills up the rest when the sum was too large.
+                // Their rounded quotients may otherwise add up to more than 1.
+                self.blackness = sum
+                    .gt(&T::max_intensity())
+                    .select(T::one() - self.whiteness.clone(), self.blackness.clone());
             }
         }
     };
